@@ -46,10 +46,47 @@ CONFIGS = {
 
 
 # ------------------------------------------------------------------ encoders
+# Long byte strings that recur in the generated programs (names, scripts, the
+# demo script) are defined once in the header of the case files and referred
+# to by name; a buffer that contains one is written as a concatenation.
+POOL: dict[bytes, str] = {}
+
+
+def pool_add(b: bytes) -> None:
+    if len(b) >= 32 and b not in POOL:
+        POOL[b] = f'pool_{len(POOL)}'
+
+
+def _periodic(b: bytes) -> str:
+    for p in range(1, 9):
+        if len(b) % p == 0 and len(b) // p > 8 and b == b[:p] * (len(b) // p):
+            return f'(concat (repeat {T.bytes_(b[:p])} {T.nat(len(b) // p)}))'
+    return T.bytes_(b)
+
+
+def pool_header() -> str:
+    return ''.join(f'Definition {n} : bytes := {_periodic(b)}.\n' for b, n in POOL.items())
+
+
+def B(b) -> str:
+    """bytes -> Gallina term of type bytes"""
+    b = bytes(b)
+    if len(b) >= 32:
+        for p, n in sorted(POOL.items(), key=lambda x: -len(x[0])):
+            i = b.find(p)
+            if i >= 0:
+                parts = [B(b[:i])] if i else []
+                parts.append(n)
+                if i + len(p) < len(b):
+                    parts.append(B(b[i + len(p):]))
+                return '(' + ' ++ '.join(parts) + ')' if len(parts) > 1 else n
+    return T.bytes_(b)
+
+
 def enc_key(s) -> str:
     if isinstance(s, str):
         s = s.encode('utf-8', 'surrogatepass')
-    return T.bytes_(s)
+    return B(s)
 
 
 def enc_optkey(s) -> str:
@@ -57,7 +94,7 @@ def enc_optkey(s) -> str:
 
 
 def enc_fstate(filters, active) -> str:
-    items = T.lst(T.pair(enc_key(k), T.bytes_(v)) for k, v in filters)
+    items = T.lst(T.pair(enc_key(k), B(v)) for k, v in filters)
     return f'(mk_fstate {items} {enc_optkey(active)})'
 
 
@@ -104,6 +141,8 @@ def impl_parse(buf: bytes):
         cmd, _ = Command.parse(memoryview(buf), Params().copy(allow_continuations=False))
     except NotParseable:
         return None
+    except ValueError:      # int() of more than 4300 digits; the connection answers as for NotParseable
+        return ValueError
     return cmd
 
 
@@ -117,25 +156,25 @@ def lit(b: bytes) -> bytes:
 
 
 def framed(buf: bytes) -> bool:
-    """True when the connection's reader takes exactly `buf` as one command
-    buffer (line, {n+} literal bodies, following lines) — so that one send is
-    one command and the next send starts a new one."""
-    pos, data = 0, b''
+    """True when the connection's reader (_read_data: a line; if that line
+    ends in {n+} CRLF, n more bytes and the next line; ...) takes exactly
+    `buf` as one command buffer — so that one send is one command and the next
+    send starts a new one."""
+    pos = 0
     while True:
         i = buf.find(b'\n', pos)
         if i < 0:
             return False
-        data += buf[pos:i + 1]
+        line = buf[pos:i + 1]
         pos = i + 1
-        m = re.search(rb'\{(\d{1,9})\+\}\r?\n$', data)
+        m = re.search(rb'\{(\d+)\+\}\r?\n$', line)
         if not m:
-            if re.search(rb'\{\d+\+\}\r?\n$', data):
-                return False
             break
+        if len(m.group(1)) > 9:
+            return False
         n = int(m.group(1))
         if pos + n > len(buf):
             return False
-        data += buf[pos:pos + n]
         pos += n
     return pos == len(buf)
 
@@ -237,7 +276,7 @@ def enc_resp(word: bytes, rs) -> str:
         if arg is None and name in simple:
             code = simple[name]
         elif name == b'TAG' and arg is not None:
-            code = f'(RcTag {T.bytes_(arg)})'
+            code = f'(RcTag {B(arg)})'
         elif name == b'SASL' and arg is not None:
             code = f'(RcSasl {T.bytes_(arg)})'
         else:
@@ -263,14 +302,16 @@ def enc_resp(word: bytes, rs) -> str:
     elif len(rs) != 1:
         payload = '(PScript [0;0;0]%N)'      # more than one response: matches nothing sensible
         text = 'TxOther'
+    elif word == b'LISTSCRIPTS' and r.cond == 'OK':
+        payload = '(PList ' + T.lst(T.pair(B(n), T.boolean(a is True)) for n, a in r.items) + ')'
     elif not r.items:
         payload = 'PNone'
     elif word in (b'CAPABILITY', b'') and r.cond == 'OK':
         payload = f'(PCaps {enc_caps(r.items)})'
     elif word == b'GETSCRIPT' and len(r.items) == 1 and r.items[0][1] is None:
-        payload = f'(PScript {T.bytes_(r.items[0][0])})'
+        payload = f'(PScript {B(r.items[0][0])})'
     else:
-        payload = '(PList ' + T.lst(T.pair(T.bytes_(n), T.boolean(a is True))
+        payload = '(PList ' + T.lst(T.pair(B(n), T.boolean(a is True))
                                     for n, a in r.items) + ')'
     return f'(mk_resp {r.cond} {code} {text} {payload})'
 
@@ -716,6 +757,10 @@ def gen_auth(rng, k: int, user=None, how=None) -> dict:
                 word=b'AUTHENTICATE', user=target)
 
 
+for _b in NAMES + BAD_NAMES + GOOD_SCRIPTS + BAD_SCRIPTS:
+    pool_add(_b)
+
+
 def gen_program(rng, nconns: int, length: int):
     names = rng.sample(NAMES, 4)
     datas = rng.sample(GOOD_SCRIPTS, 2) + rng.sample(BAD_SCRIPTS, 2)
@@ -738,7 +783,10 @@ async def run_program(cfg_name: str, nconns: int, evs, monitor: bool = True, war
         mon = Monitor(list(w.observers))
         for u in w.observers:
             mon.load(u, *await w.observe(u))
-        before = w.snapshot()
+        before = last = w.snapshot()
+        for fl, _a in before.values():
+            for _n, v in fl:
+                pool_add(v)
         greeting = parse_output(w.greeting)[0]
         sasl_tbl, comp_tbl, wire_evs, expect, transcript = [], {}, [], [], []
         for ev in evs:
@@ -757,14 +805,15 @@ async def run_program(cfg_name: str, nconns: int, evs, monitor: bool = True, war
                     out = 'AuthFail' if who is None else f'(AuthOk {enc_key(who)} None)'
                     ob = 'None' if c.initial_data is None else f'(Some {T.bytes_(c.initial_data)})'
                     sasl_tbl.append(T.pair(T.bytes_(c.mech_name), ob,
-                                           T.lst(T.bytes_(x) for x in used), out))
+                                           T.lst(B(x) for x in used), out))
             if word == b'CHECKSCRIPT':
                 c = impl_parse(buf)
                 if c is not None and type(c).__name__ == 'CheckScriptCommand':
                     comp_tbl[c.script_data] = compiles(c.script_data)
-            wire_evs.append(T.pair(T.nat(ev['conn']), T.bytes_(buf),
-                                   T.lst(T.bytes_(x) for x in used)))
-            obs = T.lst(T.pair(enc_key(u), enc_fstate(*snap[u])) for u in USERS)
+            wire_evs.append(T.pair(T.nat(ev['conn']), B(buf), T.lst(B(x) for x in used)))
+            obs = T.lst(T.pair(enc_key(u), enc_fstate(*snap[u])) for u in USERS
+                        if snap[u] != last[u])      # only the stores that changed
+            last = snap
             expect.append(T.pair('None' if rs is None else f'(Some {enc_resp(word, rs)})', obs))
             transcript.append((ev['conn'], buf, used, rs))
             if monitor:
@@ -778,7 +827,7 @@ async def run_program(cfg_name: str, nconns: int, evs, monitor: bool = True, war
             cfg,
             T.lst(T.pair(enc_key(u), enc_fstate(*before[u])) for u in USERS),
             T.lst(sasl_tbl),
-            T.lst(T.pair(T.bytes_(d), T.boolean(b)) for d, b in comp_tbl.items()),
+            T.lst(T.pair(B(d), T.boolean(b)) for d, b in comp_tbl.items()),
             T.nat(nconns),
             enc_resp(b'', greeting),
             T.lst(wire_evs),
@@ -833,6 +882,10 @@ def section_parse(ctx) -> None:
             stream.append(b'GETSCRIPT ' + lit(bytes(t)) + b'\r\n')
     for t in itertools.product([0xf0, 0xf4, 0x90, 0x8f, 0x80, 0xbf, 0x61], repeat=4):
         stream.append(b'GETSCRIPT ' + lit(bytes(t)) + b'\r\n')
+    for n in (1, 4299, 4300, 4301):
+        stream.append(b'HAVESPACE "a" ' + b'1' * n + b'\r\n')
+        stream.append(b'HAVESPACE "a" ' + b'0' * n + b'\r\n')
+        stream.append(b'GETSCRIPT {' + b'0' * n + b'1+}\r\na\r\n')
     for n in (0, 1, 4095, 4096, 4097, 5000):
         stream.append(b'CHECKSCRIPT ' + lit(b'x' * n) + b'\r\n')
         stream.append(b'CHECKSCRIPT ' + q(b'x' * n) + b'\r\n')
@@ -861,17 +914,21 @@ def section_parse(ctx) -> None:
         seen.add(buf)
         try:
             c = impl_parse(buf)
-        except Exception as exc:      # an exception other than NotParseable escapes the parser
+        except Exception as exc:      # an exception other than NotParseable / ValueError escapes
             ctx.extra.setdefault('parser_exceptions', []).append(
                 {'input': buf[:80].hex(), 'exc': repr(exc)[:120]})
             continue
-        hist[type(c).__name__] = hist.get(type(c).__name__, 0) + 1
+        kind = 'ValueError' if c is ValueError else type(c).__name__
+        hist[kind] = hist.get(kind, 0) + 1
         ctx.count(('parse', buf), nontrivial=c is not None)
-        cases.append(T.pair(T.bytes_(buf), 'None' if c is None else f'(Some {enc_cmd(c)})'))
+        exp = 'NotParseable' if c is None else '(Exc 1%N)' if c is ValueError \
+            else f'(Ok {enc_cmd(c)})'
+        cases.append(T.pair(B(buf), exp))
         inputs.append(buf)
     ctx.extra['parse_histogram'] = hist
     ctx.sample({'parse_input': inputs[-1].decode('latin-1')})
-    for i in ctx.run_cases('sieve_parse', HEADER, 'bytes * option cmd', cases, 'chk_parse')[:5]:
+    for i in ctx.run_cases('sieve_parse', HEADER + pool_header(), 'bytes * result cmd', cases,
+                           'chk_parse', shard=1500)[:5]:
         ctx.disagreement('sieve_parse', {'input': inputs[i].hex(),
                                          'impl': repr(impl_parse(inputs[i]))})
 
@@ -928,7 +985,8 @@ def section_filterset(ctx) -> None:
         return cases
     cases = asyncio.run(run_all())
     ctx.sample({'filterset_ops': repr(seqs[-1])})
-    for i in ctx.run_cases('filterset_ops', HEADER, 'list (fsop * outcome)', cases, 'chk_ops')[:5]:
+    for i in ctx.run_cases('filterset_ops', HEADER, 'list (fsop * outcome)', cases, 'chk_ops',
+                           shard=600)[:5]:
         ctx.disagreement('filterset_ops', {'ops': repr(seqs[i])})
 
 
@@ -967,12 +1025,12 @@ def section_programs(ctx) -> None:
             progs.append(('default', 2, pre + [mk(k) for k, _nm, mk in t], ('u1', 'u2')))
     n_exh = len(progs)
     if ctx.quick:      # a sample of the length-3 sequences
-        for _ in range(1200):
+        for _ in range(600):
             t = [rng.choice(letters) for _ in range(3)]
             progs.append(('default', 2, pre + [mk(k) for k, _nm, mk in t], ('u1', 'u2')))
     ctx.extra['exhaustive_sequences'] = {'alphabet': len(letters), 'max_len': maxlen, 'count': n_exh}
     # (2) random programs
-    for _ in range(ctx.scale(900, 20000)):
+    for _ in range(ctx.scale(600, 20000)):
         cfg_name = rng.choice(['default', 'default', 'small', 'nolimit', 'tls'])
         nconns = rng.choice([2, 3, 3, 4])
         progs.append((cfg_name, nconns, gen_program(rng, nconns, rng.randint(6, 22)), tuple(USERS)))
@@ -1006,12 +1064,16 @@ def section_programs(ctx) -> None:
     ctx.extra['program_command_histogram'] = kinds
     ctx.sample({'program': [(c, b.decode('latin-1'), repr(r)) for c, b, _u, r in
                             results[-1].get('transcript', [])[:8]]})
-    bad = ctx.run_cases('sieve_prog', HEADER, 'prog_case', cases, 'chk_prog', shard=100)
+    bad = ctx.run_cases('sieve_prog', HEADER + pool_header(), 'prog_case', cases, 'chk_prog',
+                        shard=200)
     for j in bad[:5]:
         cfg_name, nconns, evs, _warm = progs[idx[j]]
         d = describe(cfg_name, nconns, evs)
         d['transcript'] = [(c, b.decode('latin-1'), repr(r))
                            for c, b, _u, r in results[idx[j]]['transcript']]
+        from .. import coqrun
+        d['model_at_first_difference'] = coqrun.eval_term(
+            ctx.prop, f'diag_{j}', HEADER + pool_header(), f'diag_prog {cases[j]}')[-1500:]
         ctx.disagreement('sieve_prog', d)
 
 
@@ -1038,7 +1100,7 @@ def run(ctx) -> None:
     ctx.extra['translator'] = msg
     if not ok:
         ctx.broken.append(msg)
-    ctx.check_proofs(['Sieve/SieveCheck', 'Sieve/FilterSetAgree'])
+    ctx.check_proofs(['Sieve/SieveCheck', 'Sieve/FilterSetAgree', 'Sieve/SieveExamples'])
     section_parse(ctx)
     section_filterset(ctx)
     section_programs(ctx)
